@@ -11,7 +11,7 @@ PID = 'C02'
 RULE = ('as C01 plus ECI; every produced stream without ECI must pass the Coq-checked conformance certificate (Spec/Recognise.v certify, sound by C02_certificate_sound) and every stream is decoded by the independent reference decoder tools/props/refdec.py; the padding '
         'sweep encodes the empty input and 1..3-codeword inputs for all 48 sizes so that every pad position 2..1558 occurs; '
         'non-trivial = encoding succeeded; plus three deterministic families: capacity boundaries complete for the small symbols (every alphabet x every length delta x every tail kind, with/without FNC1 start, with the single symbol of that capacity alone in the list), codec constants (Base256 runs of 248..252 / 499..501 / 1554..1555 bytes, every alphabet border byte in every context), every non-empty mode subset x {FNC1, ECI, macro, none} prefix; long inputs of one kind (lengths around 16, 64, 256, 1024) with one byte of another kind at the power-of-two offsets; and the regression corpus of minimised former witnesses')
-THEOREMS = 'C02_symbol_and_length, C02_error_codewords, C02_codeword_vector, C02_padding, C02_padding_form, C02_randomised_pad, C02_header, C02_ascii_plan_conformant, C02_ascii_only_conformant, C02_base256_only_conformant, C02_ab_plan_conformant, C02_ascii_base256_conformant, C02_macro_ab_conformant, C02_fnc1_ab_conformant, C02_ax_conformant, C02_macro_ax_conformant, C02_fnc1_ax_conformant, C02_ac_conformant, C02_macro_ac_conformant, C02_fnc1_ac_conformant, C02_certificate_sound, C02_certificate_sound_prefixed, C02_certificate_decodes'
+THEOREMS = 'C02_symbol_and_length, C02_error_codewords, C02_codeword_vector, C02_padding, C02_padding_form, C02_randomised_pad, C02_header, C02_ascii_plan_conformant, C02_ascii_only_conformant, C02_base256_only_conformant, C02_ab_plan_conformant, C02_ascii_base256_conformant, C02_macro_ab_conformant, C02_fnc1_ab_conformant, C02_ax_conformant, C02_macro_ax_conformant, C02_fnc1_ax_conformant, C02_ac_conformant, C02_macro_ac_conformant, C02_fnc1_ac_conformant, C02_mixed_plan_conformant, C02_mixed_plan_macro_conformant, C02_mixed_plan_fnc1_conformant, C02_certificate_sound, C02_certificate_sound_prefixed, C02_certificate_decodes'
 ASSUMPTIONS = ['refdec.py is an independent reading of ISO/IEC 16022 5.2 (arbiter for the streams the Coq certificate does not cover: ECI)',
                'the sort order of remove_hopeless_cases is taken from the implementation (hook trace)']
 
